@@ -20,22 +20,27 @@ def check(R, F, P, cfg):
 
     # ---- R16.1 constants -----------------------------------------------------------------------------------
     R.doc("R16.1", "evaluated constants of the two counter words")
-    c = lambda n: F.const("counter_marker::" + n)
-    CMASK, FB, FM, BM, MAX = c("COUNTER_MASK"), c("FIRST_BIT_MASK"), c("FINALIZED_MASK"), c("BITS_MASK"), c("MAX")
-    marks = [c("NON_MARKED"), c("IN_POSSIBLE_CYCLES"), c("IN_LIST"), c("IN_QUEUE")]
-    ok = CMASK == 16383 and MAX == 16382 and MAX == CMASK - 1 and (CMASK & FB) == 0 and (CMASK & FM) == 0 and (FB & FM) == 0 and (CMASK | FB | FM) == M16 and BM == (~CMASK & M16)
-    R.inst("R16.1", "strong-constants", ok, "COUNTER_MASK=%s MAX=%s FIRST_BIT_MASK=%s FINALIZED_MASK=%s BITS_MASK=%s" % (CMASK, MAX, FB, FM, BM), cfg=cfg)
-    okm = len(set(marks)) == 4 and all(m is not None and (m & ~BM & M16) == 0 for m in marks)
-    R.inst("R16.1", "mark-values", okm, "mark constants %s lie inside BITS_MASK=%s and are distinct" % (marks, BM), cfg=cfg)
-    mk = adt_of_type(F, "counter_marker::Mark")
-    dv = sorted(d["val"] for d in mk.get("discriminants", [])) if mk else []
-    R.inst("R16.1", "mark-enum-discriminants", dv == sorted(marks), "enum Mark discriminants %s == mark constants %s" % (dv, sorted(marks)), cfg=cfg)
-    iv, ivt, ivf = c("INITIAL_VALUE"), c("INITIAL_VALUE_TRACING_COUNTER"), c("INITIAL_VALUE_FINALIZED")
-    R.inst("R16.1", "initial-values", iv == 1 and ivf == (1 | FM) and (ivt & BM) == marks[0], "INITIAL_VALUE=%s INITIAL_VALUE_FINALIZED=%s INITIAL_VALUE_TRACING_COUNTER=%s" % (iv, ivf, ivt), cfg=cfg, nontrivial=False)
+    # the layout is read from the functions that use it (the mask a getter ANDs with, the limit an increment compares with, the value a
+    # constructor stores); the constants' names are labels and may change
+    L = word_layout(F)
+    CMASK, FB, BM, MAX = L["CMASK"], L["FB"], L["BM"], L["MAX"]
+    FM = L["FM"] if L["FM"] is not None else (max(L["INIT"]) & ~1 if L["INIT"] else None)   # without `finalization` no getter reads the bit: the constructor's flagged initial value
+    ok = None not in (CMASK, FB, FM, BM, MAX) and CMASK == 16383 and MAX == 16382 and MAX == CMASK - 1 and (CMASK & FB) == 0 and (CMASK & FM) == 0 and (FB & FM) == 0 and (CMASK | FB | FM) == M16 and BM == (~CMASK & M16)
+    R.inst("R16.1", "strong-constants", ok, "counter mask (CounterMarker::counter)=%s limit (increment_counter)=%s high flag (is_in_list_or_queue)=%s finalized flag (is_finalized / constructor)=%s mark mask (is_in_possible_cycles)=%s" % (CMASK, MAX, FB, FM, BM), cfg=cfg)
     if weak:
-        w = lambda n: F.const("weak::weak_counter_marker::" + n)
-        ok = w("MAX") == 32767 and w("COUNTER_MASK") == 32767 and w("ACCESSIBLE_MASK") == 32768
-        R.inst("R16.1", "weak-constants", ok, "weak MAX=%s COUNTER_MASK=%s ACCESSIBLE_MASK=%s" % (w("MAX"), w("COUNTER_MASK"), w("ACCESSIBLE_MASK")), cfg=cfg)
+        R.inst("R16.1", "metadata-flag", L["MB"] == FB, "has_allocated_for_metadata tests %s of the strong word (the bit outside counter and finalized flag: %s)" % (L["MB"], FB), cfg=cfg)
+    mk = adt_of_type(F, "counter_marker::Mark")
+    marks = sorted(d["val"] for d in mk.get("discriminants", [])) if mk else []
+    okm = ok and len(set(marks)) == 4 and all((m & ~BM & M16) == 0 for m in marks) and 0 in marks
+    R.inst("R16.1", "mark-values", okm, "enum Mark discriminants %s are four distinct values inside the mark mask %s, one of them 0" % (marks, BM), cfg=cfg)
+    mg = L["marks_by_getter"]
+    used = [v for v in mg.values() if v is not None]
+    R.inst("R16.1", "mark-enum-discriminants", len(used) >= 2 and len(set(used)) == len(used) and all(v in marks and v != 0 for v in used), "mark values the getters compare with %s are distinct non-zero discriminants of Mark %s" % (mg, marks), cfg=cfg)
+    init = L["INIT"] or []
+    R.inst("R16.1", "initial-values", ok and set(init) == {1, 1 | FM}, "new_with_counter_to_one stores %s (required count 1 with mark 0, and 1 | finalized flag)" % init, cfg=cfg, nontrivial=False)
+    if weak:
+        okw = L["WMAX"] == 32767 and L["WCMASK"] == 32767 and L["AM"] == 32768 and set(L["WINIT"] or []) == {0, 32768}
+        R.inst("R16.1", "weak-constants", okw, "weak limit (increment_counter)=%s counter mask (counter)=%s accessible flag (is_accessible)=%s initial values (new)=%s" % (L["WMAX"], L["WCMASK"], L["AM"], L["WINIT"]), cfg=cfg)
 
     # ---- R16.2 guarded arithmetic ------------------------------------------------------------------------------
     R.doc("R16.2", "per increment/decrement function: paths with `count == limit` return Err and store nothing; the others store load(cell)+-1 to the cell the getter reads, once, and return Ok")
